@@ -7,6 +7,30 @@ use frmc_core::ast::{Facts, Node};
 use frmc_core::jobj;
 use frmc_core::space;
 
+/// a reduced operator set that reaches node bound 6 (thorough tier)
+fn reduced_grammar() -> space::Grammar {
+    use frmc_core::ast::{lit, LookKind, Mode, A};
+    space::Grammar {
+        atoms: vec![lit("a"), lit("b"), Node::Dot, Node::Assert(A::WordB), Node::Assert(A::End), Node::Backref(1)],
+        unary: vec![
+            space::Unary::Group,
+            space::Unary::Atomic,
+            space::Unary::Look(LookKind::Ahead),
+            space::Unary::Look(LookKind::AheadNeg),
+            space::Unary::Look(LookKind::Behind),
+            space::Unary::Rep(0, None, Mode::Greedy),
+            space::Unary::Rep(1, None, Mode::Lazy),
+            space::Unary::Rep(0, Some(1), Mode::Greedy),
+            space::Unary::Rep(2, Some(2), Mode::Greedy),
+        ],
+        concat: true,
+        alt: true,
+        cond_group: false,
+        cond_expr: false,
+        empty_alt: false,
+    }
+}
+
 fn c01_space(cx: &Ctx) -> (Space, Vec<char>, usize) {
     if cx.quick() {
         (
@@ -22,6 +46,7 @@ fn c01_space(cx: &Ctx) -> (Space, Vec<char>, usize) {
             Space::new()
                 .exh("core", space::fancy_grammar(space::core_atoms()), 5)
                 .exh("extended", space::fancy_grammar(space::extended_atoms()), 4)
+                .exh("reduced", reduced_grammar(), 6)
                 .ctxfill(3, 2, &|_| true),
             spaces::sigma6(),
             3,
